@@ -156,7 +156,7 @@ def view(spec):
 
 
 PARTS = {
-    "sum": {"strategy": spec_sup, "check": check_sup, "examples": {"quick": 900, "thorough": 15000}, "sample": view},
+    "sum": {"strategy": spec_sup, "check": check_sup, "examples": {"quick": 4500, "thorough": 15000}, "sample": view},
     "mts": {"strategy": lambda tier: spec_sup(tier, mts=True), "check": lambda s, c: check_sup(s, c, mts=True),
-            "examples": {"quick": 700, "thorough": 12000}, "sample": view},
+            "examples": {"quick": 3500, "thorough": 12000}, "sample": view},
 }
